@@ -201,6 +201,9 @@ func propC16(c c16Case) (v hh.Verdict) {
 			for k, def := range m.fields {
 				sm[k] = c16Fields[def].make()
 			}
+			if len(op.Fields) == 0 {
+				sm = nil // z.Struct(nil): a hooks-only base
+			}
 			s := z.Struct(sm)
 			for i := 0; i < op.Tests; i++ {
 				s.TestFunc(l.test(nextID), c16TestOpts(nextID)...)
@@ -405,7 +408,10 @@ func genC16(rt *rapid.T, maxOps int) c16Case {
 		switch kind {
 		case "base":
 			f := rapid.SliceOfNDistinct(rapid.SampledFrom(defs[:c16Wide]), 1, 5, rapid.ID[int]).Draw(rt, "fields")
-			if rapid.IntRange(0, 5).Draw(rt, "wide") == 0 {
+			if rapid.IntRange(0, 11).Draw(rt, "hooksonly") == 0 {
+				f = nil // a base without fields (z.Struct(nil)): only struct-level tests and PostTransforms to be merged / extended into others
+			}
+			if f != nil && rapid.IntRange(0, 5).Draw(rt, "wide") == 0 {
 				f = append(f, rapid.SliceOfNDistinct(rapid.SampledFrom(defs[c16Wide:]), 4, 12, rapid.ID[int]).Draw(rt, "wfields")...)
 			}
 			c.Ops = append(c.Ops, c16Op{Op: "base", Fields: f, Tests: rapid.IntRange(0, 5).Draw(rt, "nt"), Posts: rapid.IntRange(0, 3).Draw(rt, "np")})
@@ -545,5 +551,5 @@ func TestC16(t *testing.T) {
 		"keys picked / omitted are drawn from the operand's own keys (picking a missing key is misconfiguration)")
 	defer h.Finish()
 	maxOps := h.N(14, 30)
-	hh.Sub(h, "histories", h.N(6000, 15000), func(rt *rapid.T) c16Case { return genC16(rt, maxOps) }, propC16)
+	hh.Sub(h, "histories", h.N(6000, 9000), func(rt *rapid.T) c16Case { return genC16(rt, maxOps) }, propC16)
 }
